@@ -344,17 +344,17 @@ impl UnverifiedBiscuit {
             signature,
         };
 
-        let mut symbols = self.symbols.clone();
+        // a third-party block carries its own symbol and public key tables:
+        // it must not extend the token's tables (the loader and `Biscuit::append_third_party`
+        // do not either), it only has to be a well-formed block
+        proto_block_to_token_block(&block, Some(external_key)).map_err(error::Token::Format)?;
+
+        let symbols = self.symbols.clone();
         let mut blocks = self.blocks.clone();
 
         let container =
             self.container
                 .append_serialized(&next_keypair, payload, Some(external_signature))?;
-
-        let token_block = proto_block_to_token_block(&block, Some(external_key)).unwrap();
-        for key in &token_block.public_keys.keys {
-            symbols.public_keys.insert_fallible(key)?;
-        }
 
         blocks.push(block);
 
